@@ -70,8 +70,19 @@ def _raw(line):
     return None
 
 
+def _canon_tsig(line):
+    """the TSIG entry of the AR section in the summary form srvgen.resp_equal compares (both sides print the RDATA in hex
+    now that the model writes the TSIG record itself; the octets are compared through raw=)"""
+    out = []
+    for tok in line.split(" "):
+        if tok.startswith("AR=[") and tok.endswith("]") and tok != "AR=[?]":
+            tok = "AR=[" + ",".join(srvgen.canon_tsig_entry(x) for x in tok[4:-1].split(",") if x != "") + "]"
+        out.append(tok)
+    return " ".join(out)
+
+
 def corr_eq_w(case, impl, model):
-    if not srvgen.resp_equal(impl, model):
+    if not srvgen.resp_equal(impl, _canon_tsig(model)):
         return False
     rm = _raw(model)
     return rm is None or rm == _raw(impl)
@@ -87,7 +98,7 @@ def nontrivial_w(case, impl, model, oracle):
     return _raw(model) is not None          # the composed model answered in octets
 
 
-CHECK["suites"].append(dict(CHECK["suites"][0], name="srvw", extract="Extract/ExSrvW.v", driver="run_srvw.ml",
+CHECK["suites"].append(dict(CHECK["suites"][0], name="srvw", impl_bin="impl_srvt", extract="Extract/ExSrvW.v", driver="run_srvw.ml",
                             runner_name="SRVW", gen=gen_w, nontrivial=nontrivial_w, corr_eq=corr_eq_w,
                             rule=("the extracted composed model handle_message_w itself (no composition in the runner); every response "
                                   "it produces in octets must equal the real server's octet for octet")))
